@@ -84,6 +84,18 @@ def run(ctx: Ctx) -> None:
         rk = risky(ctx, res, f_, f_.node.body)
         ctx.ob("C16.R1", f_, f"{f_.name} cannot raise by itself on any message", not rk, f"{rk[:3]}: a message that makes it raise (an unlisted error code, say) tears down the connection and with it the operations of all other peripherals")
     ctx.count("C16.R1.callbacks", n_cb, 4, "Bluetooth message callbacks")
+    # the Bluetooth operations of the client end with the outcome they computed: no path reaches a use of a local
+    # name that it has not bound (the UnboundLocalError would replace the timeout / the result)
+    from ..totality import maybe_unbound
+
+    n_bt = 0
+    for f_ in ctx.repo.funcs_in("client"):
+        if f_.cls is not client or "bluetooth" not in f_.qualname:
+            continue
+        n_bt += 1
+        ub = maybe_unbound(ctx, f_)
+        ctx.ob("C16.R1", f_, f"{f_.qualname.split('.', 1)[-1]}: every local name is bound on every path that uses it", not ub, f"{ub[:3]}: that path ends with UnboundLocalError instead of the outcome of the operation (after a connect timeout: instead of the timeout error)")
+    ctx.count("C16.R1.bluetooth_functions", n_bt, 12, "Bluetooth functions of the client")
     # operations on different handles / addresses run side by side: the client does not queue them behind each other
     # (a lock or semaphore around the request would delay an operation by another one's, and lose a response that
     # arrives before its request was even subscribed)
